@@ -520,3 +520,61 @@ def targeted(rng, opname):
     body.append(Node("end"))
     return [Node("main local.p0 local.p1:", body, None, kind="label0"),
             Node("lab1 local.p0:", [Node("end local.p0")], None, kind="label")]
+
+
+# ---------------------------------------------------------------------------------------------
+# deterministic family: operand counts around the width of the count operands (uint8 parameter counts of the
+# COUNT1 opcodes, uint16 element count of OP_LOAD_CONST_ARRAY1)
+
+LARGE_SIZES = [2, 17, 200, 255, 256, 257, 300, 1000]
+
+
+def _items(n, kind):
+    if kind == "int":
+        return [str(i) for i in range(1, n + 1)]
+    if kind == "mixed":
+        pool = ["1", '"s"', "local.a", "NIL", "2.5", "( 1 2 3 )", "70000", " -3"]
+        return [pool[i % len(pool)] for i in range(n)]
+    return ["local.v%d" % (i % 7) for i in range(n)]
+
+
+def large_family(sizes=None):
+    """[(name, source, opts)]: constant array literals, makeArray blocks, command / method / thread-call / label
+    parameter lists with n elements; every program prints the size it built and goes on with plain statements,
+    so that operands left on the stack are seen at the next statement and at the thread's end"""
+    out = []
+    for n in sizes or LARGE_SIZES:
+        for kind in ("int", "mixed"):
+            lit = "::".join(_items(n, kind))
+            out.append(("large:carr:%s:%d" % (kind, n),
+                        "main:\nlocal.arr = %s\nprintln \"size\" local.arr.size\nlocal.q = local.arr[%d]\nlocal.z = 1\n"
+                        "if (local.arr.size == %d) { println \"ok\" }\nwait 0\nlocal.z = 2\nend local.arr.size\n" % (lit, n, n), ""))
+        out.append(("large:carr-in-expr:%d" % n,
+                    "main:\nlocal.n = (%s).size + 1\nprintln local.n\nfor (local.i = 0; local.i < 2; local.i++) { local.arr = %s }\nlocal.z = 1\nend\n"
+                    % ("::".join(_items(n, "int")), "::".join(_items(n, "var"))), ""))
+        rows = "\n".join("%d %d" % (i, i + 1) if i % 3 else "%d" % i for i in range(1, n + 1))
+        out.append(("large:makearray:%d" % n,
+                    "main:\nlocal.arr = makeArray\n%s\nendArray\nprintln \"size\" local.arr.size\nlocal.z = 1\nwait 0\nend\n" % rows, ""))
+        out.append(("large:makearray-wide:%d" % n,
+                    "main:\nlocal.arr = makeArray\n%s\n1 2\nendArray\nprintln \"size\" local.arr.size local.arr[1].size\nlocal.z = 1\nend\n"
+                    % " ".join(_items(n, "int")), ""))
+    return out
+
+
+def large_param_family(sizes=None):
+    """parameter counts of commands, methods, thread calls and labels around 255 / 256 (the count operand of the
+    COUNT1 opcodes is one byte wide)"""
+    out = []
+    for n in sizes or [6, 17, 200, 254, 255, 256, 257, 300]:
+        args = " ".join(_items(n, "int"))
+        # beyond the one-byte count operand the compiler must refuse (notes/C02-findings.md F6): name suffix `:reject`
+        rj = ":reject" if n > 255 else ""
+        rjt = ":reject" if n + 1 > 255 else ""
+        out.append(("large:cmd:%d%s" % (n, rj), "main:\nprintln %s\nlocal.z = 1\nwait 0\nlocal.z = 2\nend\n" % args, ""))
+        out.append(("large:method:%d%s" % (n, rj), "main:\nlocal println %s\nlocal.z = 1\n$nosuch print %s\nlocal.z = 2\ngroup print %s\nend\n" % (args, args, args), ""))
+        out.append(("large:retcmd:%d%s" % (n, rj), "main:\nlocal.q = randomint %s\nlocal.z = 1\nlocal.q = (local inheritsfrom %s)\nlocal.z = 2\nend\n" % (args, args), ""))
+        params = " ".join("local.p%d" % i for i in range(n))
+        out.append(("large:thread:%d%s" % (n, rjt),
+                    "main:\nthread callee %s\nlocal.z = 1\nlocal.q = waitthread callee %s\nlocal.z = 2\nlocal thread callee %s\nend\n"
+                    "callee %s:\nlocal.s = local.p0 + local.p%d\nend local.s\n" % (args, args, args, params, n - 1), ""))
+    return out
